@@ -169,4 +169,10 @@ a `To()` with nil (finding F21: `NewTracer` did not, so a node configured with `
 on contract creations that every other node executed) -/
 theorem fact_to_derefs_guarded : Gen.censusToDerefs.all (fun s => s.2.2 == "guarded") = true := by decide +kernel
 
+/-- no store-key prefix has spare capacity: `append(prefix, addr...)`, executed by the consensus goroutine and by every
+query goroutine, therefore always copies and never writes into a backing array shared between goroutines (18
+prefixes examined in the compiled code; the set of package-level variables is `fact_pkg_vars`) -/
+theorem fact_key_prefixes_no_spare_capacity :
+    Gen.keyPrefixesWithSpareCapacity = [] ∧ Gen.keyPrefixesExamined = 18 := by decide +kernel
+
 end Evermint.Facts.Determinism
